@@ -159,7 +159,9 @@ def replay(rec, ctx):
         return vals[attr][v - 1]
 
     h = rec["h"]
-    group = gcls(observers=[get(i) for i in h[0]["s"]])
+    passed = [get(i) for i in h[0]["s"]]          # the caller keeps the list it hands to the group
+    passed_copy = list(passed)
+    group = gcls(observers=passed)
     for i in (1, 2, 3):
         get(i)
     sig0 = f"{cname}.{A}"
@@ -174,7 +176,19 @@ def replay(rec, ctx):
             elif op == "add_wrong_type":
                 group.add_observer(mk_wrong())
             elif op == "set_observers":
-                group.observers = [get(i) for i in e["s"]]
+                passed = [get(i) for i in e["s"]]
+                passed_copy = list(passed)
+                group.observers = passed
+            elif op == "caller_mutates_list":
+                if e["how"] == "append_to_assigned":
+                    passed.append(mk_wrong())
+                elif e["how"] == "clear_assigned":
+                    passed.clear()
+                else:
+                    got = group.observers
+                    if isinstance(got, list):
+                        got.append(mk_wrong())
+                passed_copy = list(passed)
             elif op == "assign_scalar":
                 setattr(group, amap[e["a"]], conc(amap[e["a"]], e["v"]))
             elif op == "assign_seq":
@@ -215,6 +229,8 @@ def replay(rec, ctx):
     if len(real) != len(members) or any(x is not y for x, y in zip(real, members)):
         bad("membership-differs", f"expected members {rec['members']}, got {len(real)} observers")
         return viol
+    if len(passed) != len(passed_copy) or any(x is not y for x, y in zip(passed, passed_copy)):
+        bad("group-modified-the-callers-list", f"the list assigned to observers now has {len(passed)} entries, the caller left it with {len(passed_copy)}")
     if len(group) != len(members):
         bad("len-differs", f"{len(group)} vs {len(members)}")
     for key, attr in (("a", A), ("b", B)):
@@ -267,6 +283,7 @@ def replay_bolo(rec, ctx):
     h = rec["h"]
     if any(e["op"] in ("assign_scalar", "assign_seq", "assign_names", "set_member") for e in h[1:]):
         return None
+    from raysect.primitive import Sphere
     world = World()
     cam = BolometerCamera(parent=world, name="cam")
     slit = BolometerSlit("slit", Point3D(0, 0, 0), Vector3D(1, 0, 0), 0.005, Vector3D(0, 1, 0), 0.005, parent=cam)
@@ -283,7 +300,9 @@ def replay_bolo(rec, ctx):
     for i in (1, 2, 3):
         f = Foil(f"f{i}", Point3D(0, 0, -0.05 * i), Vector3D(1, 0, 0), 0.002, Vector3D(0, 1, 0), 0.002, slit)
         obs[i] = f
-    cam.foil_detectors = [obs[i] for i in h[0]["s"]]
+    passed = [obs[i] for i in h[0]["s"]]
+    passed_copy = list(passed)
+    cam.foil_detectors = passed
     outcome = "ok"
     for e in h[1:]:
         outcome = "ok"
@@ -293,10 +312,18 @@ def replay_bolo(rec, ctx):
             elif e["op"] == "add_wrong_type":
                 cam.add_foil_detector(slit)
             elif e["op"] == "set_observers":
-                cam.foil_detectors = [obs[i] for i in e["s"]]
+                passed = [obs[i] for i in e["s"]]
+                passed_copy = list(passed)
+                cam.foil_detectors = passed
+            elif e["op"] == "caller_mutates_list":
+                if e["how"] == "append_to_assigned":
+                    passed.append(Sphere(0.1))
+                elif e["how"] == "clear_assigned":
+                    passed.clear()
+                else:
+                    cam.foil_detectors.append(Sphere(0.1))
+                passed_copy = list(passed)
             elif e["op"] == "observe":
-                for f in obs.values():
-                    f.pipelines = [FakePipe()] if False else f.pipelines
                 cam.observe()
         except (TypeError, ValueError) as ex:
             outcome = type(ex).__name__
@@ -316,6 +343,8 @@ def replay_bolo(rec, ctx):
         return viol
     if len(cam) != len(members) or list(cam) != members:
         bad("len-or-iter-differs", "")
+    if len(passed) != len(passed_copy) or any(x is not y for x, y in zip(passed, passed_copy)):
+        bad("group-modified-the-callers-list", f"{len(passed)} vs {len(passed_copy)}")
     for i, o in enumerate(members):
         if o.parent is not cam:
             bad("member-parent-not-group", f"member {i}")
@@ -371,7 +400,7 @@ def run(v):
         k = r["h"][-1]["op"] + ("/" + r["outcome"] if r["outcome"] != "ok" else "")
         ops[k] = ops.get(k, 0) + 1
     for need in ("add", "add_wrong_type/rejected", "set_observers", "assign_scalar", "assign_seq", "assign_seq/ValueError",
-                 "assign_names", "assign_names/ValueError", "set_member", "observe"):
+                 "assign_names", "assign_names/ValueError", "set_member", "observe", "caller_mutates_list"):
         if not ops.get(need):
             raise core.MachineryError(f"vacuity: action {need} never taken by TLC")
     v.notes["edges_per_action"] = ops
